@@ -262,6 +262,77 @@ func expectedTable(nums map[string]uint64, items map[string]v2Item, cites map[st
 	return out.String()
 }
 
+// normTable reduces a table to what the property speaks about: per row the
+// name (with its citation), the value with its unit and the concern marker,
+// section headers, blank separator rows and footnotes. Column widths, padding
+// and indentation are layout, which no property fixes, and are ignored.
+func normTable(t string) string {
+	var out []string
+	for _, l := range strings.Split(t, "\n") {
+		if strings.HasPrefix(l, "|") {
+			cells := strings.Split(strings.Trim(l, "|"), "|")
+			for i := range cells {
+				cells[i] = strings.Join(strings.Fields(cells[i]), " ")
+			}
+			if len(cells) > 0 && strings.Trim(cells[0], "-") == "" && cells[0] != "" {
+				continue // the |---|---| separator
+			}
+			out = append(out, strings.Join(cells, " | "))
+			continue
+		}
+		if strings.HasPrefix(l, "[") {
+			if i := strings.IndexByte(l, ']'); i > 0 {
+				out = append(out, l[:i+1]+" "+strings.TrimLeft(l[i+1:], " "))
+				continue
+			}
+		}
+		out = append(out, strings.TrimRight(l, " "))
+	}
+	return strings.Join(out, "\n")
+}
+
+// dropUnknownRows removes table rows of metrics this harness does not know
+// (a metric added to all three formats later is not a violation of anything;
+// its row simply cannot be checked). It only applies when JSON v2 carries items
+// beyond the known ones.
+func dropUnknownRows(tab string, items map[string]v2Item, groups []groupRow) string {
+	known := map[string]bool{}
+	for _, m := range c11Metrics {
+		known[m.symbol] = true
+	}
+	extra := false
+	for k := range items {
+		if !known[k] && !strings.HasPrefix(k, "refgroup.") {
+			extra = true
+		}
+	}
+	if !extra {
+		return tab
+	}
+	names := map[string]bool{}
+	for _, m := range c11Metrics {
+		names[m.label], names[m.section], names[m.sub] = true, true, true
+	}
+	for _, g := range groups {
+		names[g.name] = true
+	}
+	var out []string
+	for _, l := range strings.Split(tab, "\n") {
+		if strings.HasPrefix(l, "| ") {
+			cell := strings.TrimSpace(strings.SplitN(strings.Trim(l, "|"), "|", 2)[0])
+			cell = strings.TrimPrefix(cell, "* ")
+			if i := strings.LastIndex(cell, "["); i > 0 && strings.HasSuffix(cell, "]") {
+				cell = strings.TrimSpace(cell[:i])
+			}
+			if cell != "" && !names[cell] && cell != "Name" && strings.Trim(cell, "-") != "" {
+				continue
+			}
+		}
+		out = append(out, l)
+	}
+	return strings.Join(out, "\n")
+}
+
 type groupRow struct {
 	symbol string
 	name   string
@@ -359,7 +430,7 @@ func c11Render(sh *explore.Shard, hs *sizes.HistorySize, refGroups []sizes.RefGr
 			}
 			tab := hs.TableString(refGroups, sizes.Threshold(th), style)
 			want := expectedTable(nums, items, cites, groups, th)
-			if tab != want {
+			if normTable(dropUnknownRows(tab, items, groups)) != normTable(want) {
 				mk("table", fmt.Sprintf("threshold %v style %v: table differs from the one the JSON values imply\n--- actual\n%s--- expected\n%s", th, style, tab, want))
 			}
 			if style == sizes.NameStyleNone {
@@ -562,6 +633,6 @@ func c11Worker(sh *explore.Shard) {
 
 func init() {
 	Registry["C11"] = &Check{Level: "exploration", Worker: c11Worker, QuickBudget: 60 * time.Second, ThoroughBudget: 10 * time.Minute,
-		Rule:        "synthetic measurement vectors rendered in-process by the real TableString/JSON/json.Marshal: (1) each of the 22 metrics at {0,1,k*ref-1,k*ref,k*ref+1,(k+0.7)*ref for k=0..31, 45*ref, 1000*ref, cap-1, cap} x 12 thresholds (negative, 0, fractional, 29.99/30/30.01, 31, 35, 1e9, +Inf) x 3 name styles; (2) every pair of metrics both visible with shared/distinct cited objects; (3) every subset of visible rows per section with the other sections all visible/all hidden (quick) or all 2^22 subsets (thorough), with refgroup rows. The table must equal byte-for-byte the text constructed from the JSON v1 numbers and JSON v2 reference values by the statement's rules; JSON v2 value/levelOfConcern/prefixes must agree with JSON v1; rows only disappear as the threshold rises",
+		Rule:        "synthetic measurement vectors rendered in-process by the real TableString/JSON/json.Marshal: (1) each of the 22 metrics at {0,1,k*ref-1,k*ref,k*ref+1,(k+0.7)*ref for k=0..31, 45*ref, 1000*ref, cap-1, cap} x 12 thresholds (negative, 0, fractional, 29.99/30/30.01, 31, 35, 1e9, +Inf) x 3 name styles; (2) every pair of metrics both visible with shared/distinct cited objects; (3) every subset of visible rows per section with the other sections all visible/all hidden (quick) or all 2^22 subsets (thorough), with refgroup rows. The table must equal, row by row (name with citation, value with unit, concern marker, section headers, separator rows, footnotes; column widths and padding ignored), the text constructed from the JSON v1 numbers and JSON v2 reference values by the statement's rules; JSON v2 value/levelOfConcern/prefixes must agree with JSON v1; rows only disappear as the threshold rises",
 		Assumptions: []string{"value/referenceValue is evaluated as IEEE double division, as JSON consumers would", "the numeral inside a cell is taken from FormatNumber (its correctness is C12's)"}}
 }
